@@ -171,7 +171,11 @@ func c03Data(spacing string) []core.SeriesSpec {
 		}
 		return []core.SeriesSpec{a, gen.Regular(`a{l="1"}`, 0, 10000, 90, -3, 1.5)}
 	case "30s":
-		return []core.SeriesSpec{gen.Regular(`a{l="0"}`, 0, 30000, 40, 1, 1), gen.Regular(`a{l="1"}`, 15000, 30000, 40, 100, -2)}
+		st := gen.Regular(`a{l="2"}`, 0, 30000, 40, 7, 3)
+		for _, i := range []int{4, 5, 11, 20, 21, 22, 30} {
+			st.S[i].V = core.F(core.Stale) // staleness markers exactly on steps
+		}
+		return []core.SeriesSpec{gen.Regular(`a{l="0"}`, 0, 30000, 40, 1, 1), gen.Regular(`a{l="1"}`, 15000, 30000, 40, 100, -2), st}
 	case "irregular":
 		a := core.SeriesSpec{L: `a{l="0"}`}
 		t := int64(0)
@@ -239,19 +243,26 @@ func init() {
 			r := int64(60000)
 			instants := []int64{t - r - 1, t - r, t - r + 1, t - 30000, t - 1, t, t + 1}
 			for mask := 1; mask < 1<<len(instants); mask++ {
-				var lay []core.Pt
+				var base []core.Pt
 				v := 1.0
 				for i, ts := range instants {
 					if mask&(1<<i) != 0 {
-						lay = append(lay, p(ts, v))
+						base = append(base, p(ts, v))
 						v += 2
 					}
 				}
-				data := []core.SeriesSpec{{L: `a{l="0"}`, S: lay}}
-				for _, f := range funcs {
-					q := fmt.Sprintf("%s(a[1m])", f)
-					emit(&core.Case{Q: q, Data: data, W: core.Instant(t), O: core.Opts{Optimizers: "none"}, Note: "edge-layout"})
-					emit(&core.Case{Q: q, Data: data, W: core.Range(t-60000, 30000, 4), O: core.Opts{Optimizers: "none"}, Note: "edge-layout"})
+				// none, or exactly one, of the samples is a staleness marker
+				for stale := -1; stale < len(base); stale++ {
+					lay := append([]core.Pt(nil), base...)
+					if stale >= 0 {
+						lay[stale].V = core.F(core.Stale)
+					}
+					data := []core.SeriesSpec{{L: `a{l="0"}`, S: lay}}
+					for _, f := range funcs {
+						q := fmt.Sprintf("%s(a[1m])", f)
+						emit(&core.Case{Q: q, Data: data, W: core.Instant(t), O: core.Opts{Optimizers: "none"}, Note: "edge-layout"})
+						emit(&core.Case{Q: q, Data: data, W: core.Range(t-60000, 30000, 4), O: core.Opts{Optimizers: "none"}, Note: "edge-layout"})
+					}
 				}
 			}
 		})
@@ -576,7 +587,7 @@ func c06Data() []core.SeriesSpec {
 	out = append(out, b)
 	// histogram buckets
 	for _, le := range []string{"0.1", "1", "10", "+Inf"} {
-		h := core.SeriesSpec{L: fmt.Sprintf(`h_bucket{l="0",le="%s"}`, le)}
+		h := core.SeriesSpec{L: fmt.Sprintf(`h_bucket{l="0",le="%s",z="1"}`, le)}
 		base := map[string]float64{"0.1": 1, "1": 3, "10": 7, "+Inf": 10}[le]
 		for k := 0; k < 110; k++ {
 			h.S = append(h.S, p(int64(k)*30000, base*float64(k+1)))
